@@ -401,7 +401,12 @@ var AnalyzerBuiltinArity = &Analyzer{
 			if head == "" {
 				return
 			}
-			if userDefs[head] {
+			// A head qualified with the language package names the builtin
+			// itself, whatever the file binds under the bare name; any other
+			// qualifier names something this table knows nothing about.
+			if bare, ok := strings.CutPrefix(head, lisp.DefaultLangPackage+":"); ok {
+				head = bare
+			} else if userDefs[head] {
 				return
 			}
 			spec, ok := builtinArityTable[head]
